@@ -330,6 +330,14 @@ pub fn run_hist(h: &Hist, hash_out: &mut u64, reach: &mut BTreeMap<&'static str,
                     ignore_int_quit,
                     keep_stoppers,
                 } => {
+                    if *ignore_int_quit {
+                        // what subshell::Config::start does before forking an
+                        // asynchronous list without job control: the child
+                        // starts with SIGINT and SIGQUIT blocked and relies on
+                        // enter_subshell to unblock them
+                        use yash_env::subshell::BlockSignals as _;
+                        system.block_sigint_sigquit().now_or_never().expect("block blocked").ok();
+                    }
                     traps
                         .enter_subshell(&system, *ignore_int_quit, *keep_stoppers)
                         .now_or_never()
